@@ -347,6 +347,7 @@ Proof.
   destruct (is_provider from sh) eqn:Pf; [discriminate H|].
   cnso H Wg; [|cbn in H; discriminate H].
   unf HD H Wt. cbn [guard tbind] in H.
+  step H. apply negb_true_iff, orb_false_iff in G. destruct G as [Px Py].
   step H. step H. apply negb_true_iff, orb_false_iff in G. destruct G as [F1 F2]. apply negb_true_iff in G0.
   cbn [need tbind] in H. step H. step H. apply check_pols3 in E. destruct E as [P1 [P2 P3]].
   step H.
@@ -485,6 +486,7 @@ Proof.
     step H. apply negb_true_iff in G.
     destruct (find_br l bs) as [bt|] eqn:F; [|discriminate H].
     pose proof (Wbs _ _ F) as Wbt.
+    step H. apply negb_true_iff in G0.
     unf HD H Wbt. step H. apply check_pols1 in E. step H. step H. destruct a0 as [r' s']. inversion H; subst.
     destruct (IHR _ _ _ _ _ Wg Wbs E1) as [TR SR].
     split; [econstructor; eauto|apply brs_seen_cons; auto].
@@ -492,7 +494,7 @@ Proof.
     step H. apply negb_true_iff in G.
     destruct (find_br l bs) as [bt|] eqn:F; [|discriminate H].
     pose proof (Wbs _ _ F) as Wbt.
-    step H. apply negb_true_iff in G0.
+    step H. apply negb_true_iff in G0. step H. apply negb_true_iff in G1.
     unf HD H Wbt. step H. apply check_pols1 in E. step H. step H. destruct a0 as [r' s']. inversion H; subst.
     destruct (IHL _ _ _ _ _ _ _ Wg WA Wbs E1) as [TR SR].
     split; [econstructor; eauto|apply brs_seen_cons; auto].
@@ -567,12 +569,21 @@ Proof.
   intros IHb IHk g sh A f' Wg WA H.
   destruct (call_or_not body) as [[fn [args [o ->]]]|NC].
   - rewrite tc_new_call_eq in H. unfold tc_new_call in H. cbv zeta in H.
+    step H. apply negb_true_iff in G. rename G into PX.
     step H. step H. step H. pose proof (reuse_guards _ _ G G0) as RU.
     step H. destruct a as [gl gr0].
     destruct (split_gamma_sound _ _ _ _ _ Wg (Forall_nil _) E) as [SP [Wgl Wgr]].
     destruct (sig_lookup Sg fn) as [sg|] eqn:SL; [|discriminate H].
     destruct (HSg _ _ SL) as [[ft [Eft Wft]] Wps]. rewrite Eft in H.
-    unf HD H Wft. step H. apply indep_all_sound in E0.
+    unf HD H Wft.
+    assert (AN : forall xt, nty x = Some xt ->
+              exists xt1, add_missing D xt = Ok xt1 /\ check_wf D xt1 = true /\ teq D xt1 h).
+    { intros xt Nx. rewrite Nx in H.
+      destruct (add_missing D xt) as [xt1| |] eqn:AM; cbn [lift tbind] in H; try discriminate H.
+      destruct (check_wf D xt1) eqn:Wx; cbn [guard tbind] in H; [|discriminate H].
+      destruct (equal_opt D (Some xt1) (Some h)) as [[|]| | |] eqn:Q; cbn [tbind] in H; try discriminate H.
+      exists xt1. repeat split; auto. apply eq_sound; auto. }
+    step H. clear E0. step H. apply indep_all_sound in E0.
     step H. step H. step H. apply indep_one_sound in E3. step H. apply check_pols1 in E4.
     assert (EQ : aset (ident x) (Some h) (if ctx_has g (ident x) then aset (ident x) (nty x) gr0 else gr0)
                  = bind gr0 x h) by (destruct (ctx_has g (ident x)); [apply aset_aset|reflexivity]).
@@ -581,6 +592,7 @@ Proof.
     pose proof (IHk _ _ _ _ (wf_ctx_set _ _ (ident x) _ Wgr Wh) WA E2) as TK.
     eapply T_CutCall; eauto.
   - rewrite (tc_new_ax_eq _ _ _ _ _ _ _ _ NC) in H. unfold tc_new_ax in H. cbv zeta in H.
+    step H. apply negb_true_iff in G. rename G into PX.
     step H. step H. step H. pose proof (reuse_guards _ _ G G0) as RU. apply negb_true_iff in G1.
     step H. destruct a as [gl gr0].
     destruct (split_gamma_sound _ _ _ _ _ Wg (Forall_nil _) E) as [SP [Wgl Wgr]].
